@@ -357,6 +357,29 @@ def gen_c12_async_retry(rng):
     return sc
 
 
+def gen_c03_async_retry_overlap(rng):
+    """Directed (round 21, C03-l): an asynchronous PLACE whose every attempt fails in transport AFTER the exchange took the
+    request, the order stream acknowledging the bets during the back-off - and the strategy sending a cancel / update /
+    replace for an acknowledged bet while the package is still retrying, so that the exhausted-retries recovery
+    (`reset_orders(complete=True)`) runs over an order with its own request in flight."""
+    sc = gen_c12_async_retry(rng)
+    m = sc["markets"][0]
+    n = len(m["updates"][1]["acts"]["L0"][0]["acts"])
+    for j in range(2, min(6, len(m["updates"]) - 1)):
+        if rng.random() < 0.7:
+            k = rng.randrange(n)
+            price = 850.0 if k % 2 == 0 else 1.05
+            act = rng.choice([{"op": "cancel", "order": k, "red": rng.choice([0.5, 1.0])}, {"op": "cancel", "order": k}, {"op": "update", "order": k, "pt": "PERSIST"}, {"op": "replace", "order": k, "price": price}])
+            m["updates"][j]["acts"] = {"L0": [act]}
+    sc["cfg"]["async"] = True
+    faults = {}
+    for a in range(rng.choice([3, 4, 4, 5])):
+        faults[str(1 + a)] = {"transport": rng.choice(["conn_after", "conn_after", "conn_after", "http503", "badjson"])}
+    sc["faults"] = faults
+    sc["directed"] = "async-place-retries-exhausted-while-a-modification-is-in-flight"
+    return sc
+
+
 def gen_c03_overlap(rng):
     """Directed: two resting bets X and Y; the cancel of X comes back with its report missing (or is a plain success); later
     two requests are in flight at once - a replace / update / cancel of X and a cancel of Y, sent as separate packages in the
